@@ -49,6 +49,11 @@ var cmds = []int{421, 60007, 9}
 // which no server of the catalogue declares unless it says so
 var probeCmds = []int{421, 60007, 9, 0}
 
+// (SessionDuration, SessionLease) pairs a server may announce: regular, absent (0 = defaults 3600/1800), negative,
+// 2^40 s and the first second whose nanosecond count overflows int64, the last one that does not
+var announcedDurations = [][2]int64{{sessDuration, sessLease}, {0, 0}, {-5, sessLease}, {1 << 40, 1 << 40}, {9223372037, sessLease}, {9223372036, 9223372036}, {sessDuration, -7}}
+var durName = map[int64]string{sessDuration: "z2100", sessLease: "z950", 0: "z0", -5: "zm5", 1 << 40: "zhuge", 9223372037: "zover", 9223372036: "zmaxok", -7: "zm7"}
+
 // ValidCommands strings a server may announce in its post-auth ad (event "announce")
 var validCatalogue = []string{
 	"421,60007,", "421,,60007", " 421 , 9 ", "DC_NOP,421", "99999999999999999999,9", "-5,421",
@@ -79,6 +84,7 @@ type event struct {
 	Via      string `json:"via,omitempty"`      // peername | stream | both
 	Dt       int    `json:"dt,omitempty"`
 	K        int    `json:"n,omitempty"`       // ordinal of a session (inval, lne); 99 = an id never issued
+	Dur      int    `json:"dur,omitempty"`     // announce: index into announcedDurations (SessionDuration / SessionLease of the post-auth ad)
 	AuthCmd  int    `json:"authcmd,omitempty"` // hs: SecurityConfig.AuthCommand (the DC_SEC_QUERY shape: Command asks about AuthCommand)
 	Valid    int    `json:"valid,omitempty"`   // announce: index into validCatalogue
 	Mint     bool   `json:"mint,omitempty"`    // import: claim number Claim is minted into the client cache by MintClaimSession (Tag, PeerAddr, ExtraValidCommands)
@@ -676,6 +682,9 @@ type refSess struct {
 	present    bool // still stored (expired entries stay until swept)
 	// registered by Store / ImportClaimSession / MintClaimSession: not the record a client handshake makes
 	notClientSide bool
+	// the announced lifetime was negative or overflows int64 nanoseconds: the real entry may expire
+	// earlier than the announcement taken at its word (never later)
+	mayDieEarly bool
 }
 
 type refMap struct {
@@ -989,12 +998,19 @@ func runHistory(h history) runOut {
 			}
 			ref.now += int64(e.Dt)
 			term = fmt.Sprintf("XTick z%d", e.Dt)
+			if e.Dt < 0 { // the clock steps back
+				term = fmt.Sprintf("XTick zm%d", -e.Dt)
+				out.counts["clock-steps-back"]++
+			}
 		case "inval":
 			id := w.idOfOrd(e.K)
 			ret := w.cache.Invalidate(id)
 			out.checks++
 			rs := ref.sess[id]
 			want := rs != nil && rs.present
+			if rs != nil && rs.mayDieEarly {
+				want = ret // it may already have expired and been removed lazily
+			}
 			if ret != want {
 				fail("invalidate-return", "%s: Invalidate(%s) returned %v, session stored: %v", what, w.sidName(id), ret, want)
 			}
@@ -1020,6 +1036,12 @@ func runHistory(h history) runOut {
 					ref.drop(id)
 				}
 			}
+			for id, rs := range ref.sess { // entries that died early (see mayDieEarly) and were swept as well
+				if _, stored := w.cache.VerifSessionKeys()[id]; rs.present && rs.mayDieEarly && !stored {
+					want++
+					ref.drop(id)
+				}
+			}
 			if n != want {
 				fail("invalidate-expired-count", "%s: InvalidateExpired removed %d sessions, %d were expired", what, n, want)
 			}
@@ -1041,12 +1063,26 @@ func runHistory(h history) runOut {
 			}
 			w.ord(id)
 			cfg := &security.SecurityConfig{PeerName: addr, SecurityTag: e.Tag, SessionCache: w.cache, Command: 421}
-			security.VerifStoreClientSession(cfg, nil, id, "unauthenticated@unmapped", valid, bytes.Repeat([]byte{0x6b}, 32), security.CryptoAES, sessDuration, sessLease, w.cache)
+			dl := announcedDurations[e.Dur%len(announcedDurations)]
+			security.VerifStoreClientSession(cfg, nil, id, "unauthenticated@unmapped", valid, bytes.Repeat([]byte{0x6b}, 32), security.CryptoAES, int(dl[0]), int(dl[1]), w.cache)
+			// what the server said, taken at its word (0 = the documented defaults): the session may die earlier
+			// (an int64-nanosecond overflow makes it expire at once), it must never live longer
+			specDur, specLease := dl[0], dl[1]
+			if specDur == 0 {
+				specDur = 3600
+			}
+			if specLease == 0 {
+				specLease = 1800
+			}
+			if specLease < 0 {
+				specLease = 0 // a negative lease can only shorten the life
+			}
+			annTail := fmt.Sprintf(" %s %s", durName[dl[0]], durName[dl[1]])
 			if old := ref.sess[id]; old != nil && old.present && !(ref.now > old.exp) && old.notClientSide {
 				// a live record that is not a client-side one (an imported claim session) holds the id and
 				// carries another key: it is left alone, nothing is cached for the announced session
 				out.counts["announce-collides-with-imported-record"]++
-				term = fmt.Sprintf("XAnnounce n%d n%d n%d %s", w.sidN(id), idx(tags, e.Tag), e.Addr, hexs(valid))
+				term = fmt.Sprintf("XAnnounce n%d n%d n%d %s", w.sidN(id), idx(tags, e.Tag), e.Addr, hexs(valid)) + annTail
 				break
 			}
 			for tr, v := range ref.routes {
@@ -1054,7 +1090,8 @@ func runHistory(h history) runOut {
 					delete(ref.routes, tr)
 				}
 			}
-			nrs := &refSess{id: id, tag: e.Tag, addr: addr, cmds: map[string]bool{}, exp: ref.now + sessDuration, lease: sessLease, present: true}
+			nrs := &refSess{id: id, tag: e.Tag, addr: addr, cmds: map[string]bool{}, exp: ref.now + specDur, lease: specLease, present: true,
+				mayDieEarly: dl[0] > 9223372036 || dl[1] > 9223372036 || dl[0] < 0 || dl[1] < 0}
 			ref.sess[id] = nrs
 			for _, f := range strings.Split(valid, ",") { // what the server declared: the non-empty elements, as written
 				if f = strings.TrimSpace(f); f != "" {
@@ -1063,7 +1100,7 @@ func runHistory(h history) runOut {
 				}
 			}
 			out.counts["announce-validcommands"]++
-			term = fmt.Sprintf("XAnnounce n%d n%d n%d %s", w.sidN(id), idx(tags, e.Tag), e.Addr, hexs(valid))
+			term = fmt.Sprintf("XAnnounce n%d n%d n%d %s", w.sidN(id), idx(tags, e.Tag), e.Addr, hexs(valid)) + annTail
 		case "import":
 			// a session id is registered again under another tag / address / command - whether the
 			// earlier entry is gone or STILL STORED: by Store + MapCommand (Claim == 0, a previously
@@ -1241,6 +1278,9 @@ func randEvent(c *core.Ctx, pos int, prev []event) event {
 		return event{Kind: "invalexp"}
 	case x < 91:
 		e := event{Kind: "announce", Tag: tags[r.Intn(3)], Addr: r.Intn(2), Valid: r.Intn(len(validCatalogue))}
+		if r.Intn(2) == 0 {
+			e.Dur = r.Intn(len(announcedDurations))
+		}
 		if r.Intn(3) == 0 {
 			e.K = 1 + r.Intn(3)
 		}
@@ -1339,6 +1379,19 @@ func gen(c *core.Ctx) error {
 		}
 	}
 
+	// ... and with the separator character inside a component they are NOT (known finding key-separator-collision):
+	// a session filed under (tag "t", address "a") is found by a tag-less lookup for the address "t,a"
+	{
+		sc := security.NewSessionCache()
+		sc.Store(security.NewSessionEntry("id-sep", "a", &security.KeyInfo{Data: bytes.Repeat([]byte{1}, 32), Protocol: "AES"}, nil, time.Time{}, 0, "t"))
+		sc.MapCommand("t", "a", "1", "id-sep")
+		c.OracleCheck()
+		if e, ok := sc.LookupByCommand("", "t,a", "1"); ok {
+			c.OracleFail("key-separator-collision", fmt.Sprintf("LookupByCommand(tag \"\", address \"t,a\", 1) returns the session filed under (tag \"t\", address %q, 1): both use the key %q", e.Addr(), realKey("t", "a", "1")),
+				map[string]string{"kind": "collision", "tag": "", "addr": "t,a", "cmd": "1", "tag2": "t", "addr2": "a", "cmd2": "1"})
+		}
+	}
+
 	hsOK := allHsEvents([]string{"ok"})
 	hsAll := allHsEvents([]string{"ok", "d1", "d2", "d3"})
 	second := append(append([]event{}, hsAll...), otherEvents()...)
@@ -1376,6 +1429,11 @@ func gen(c *core.Ctx) error {
 		// MintClaimSession with a tag, a peer address and commands: the routes are filed under that tag
 		{{Kind: "import", Claim: 1, Mint: true, Tag: "tagA", Addr: 0, Cmd: 421}, H("tagA", 0, 421), H("", 0, 421), H("tagB", 0, 421)},
 		{{Kind: "import", Claim: 2, Mint: true, Tag: "tagB", Addr: 1, Cmd: 9}, H("", 1, 9), H("tagB", 1, 9), {Kind: "import", Claim: 2, Mint: true, Tag: "", Addr: 1, Cmd: 60007}, H("tagB", 1, 9), H("", 1, 60007)},
+		// lifetimes a server may announce: absent, negative, overflowing int64 nanoseconds; and a clock stepping back
+		{{Kind: "announce", Tag: "tagA", Addr: 0, Valid: 10, Dur: 3}, H("tagA", 0, 421), {Kind: "announce", Tag: "tagA", Addr: 0, Valid: 10, Dur: 4}, H("tagA", 0, 421), {Kind: "announce", Tag: "tagA", Addr: 0, Valid: 10, Dur: 5}, {Kind: "tick", Dt: 3000}, H("tagA", 0, 421)},
+		{{Kind: "announce", Tag: "", Addr: 1, Valid: 10, Dur: 1}, {Kind: "tick", Dt: 3000}, H("", 1, 421), {Kind: "tick", Dt: 1500}, H("", 1, 60007), {Kind: "announce", Tag: "", Addr: 1, Valid: 10, Dur: 2}, H("", 1, 421)},
+		{{Kind: "announce", Tag: "tagB", Addr: 0, Valid: 10, Dur: 6}, {Kind: "tick", Dt: 1500}, H("tagB", 0, 421), {Kind: "tick", Dt: 1500}, H("tagB", 0, 421)},
+		{H("tagA", 0, 421), {Kind: "tick", Dt: 3000}, H("tagB", 1, 9), {Kind: "tick", Dt: -1500}, {Kind: "tick", Dt: -1500}, H("tagA", 0, 60007), H("tagA", 0, 421)},
 		// malformed ValidCommands announcements, then handshakes for command 0 and other never-declared commands
 		{{Kind: "announce", Tag: "tagA", Addr: 0, Valid: 0}, H("tagA", 0, 0), H("tagA", 0, 421), H("tagA", 0, 9)},
 		{{Kind: "announce", Tag: "", Addr: 1, Valid: 1}, H("", 1, 0), H("", 1, 60007)},
